@@ -85,7 +85,7 @@ def _one(patch: str) -> str:
     for pid, new in hits:
         for k in new[:3]:
             lines.append(f'     {pid}: {k[:200]}')
-    for i in incs[:4]:
+    for i in incs:
         lines.append(f'     ~ {i[:220]}')
     return '\n'.join(lines)
 
